@@ -1652,6 +1652,27 @@ def check_pipe_field(case, rec):
     n_ok = compare_masked(out, want, tol, chk, f"{kind}: output vs trend + D(mean + raw)", tags, rec, "pipeline_field")
     rec.label("has_nan_expected" if np.isnan(want[chk]).any() else "all_valid")
 
+    # removing trend / normalisation (/ mean) and putting them back inverts: the identity applied as a processed transformation
+    # returns the field (scalar and vector fields, with the mean kept or removed as well)
+    if kind in ("srf", "srf_vector") and not case.get("upscale") and bool(np.all(np.isfinite(out))):
+        def run_tf(keep):
+            kwt = {"generator": "VectorField"} if kind == "srf_vector" else {}
+            s_ = gs.SRF(_mk_model(case), mean=mean_l, normalizer=_norm_arg(case), trend=trend_l, seed=case["seed"], mode_no=24, **kwt)
+            o1 = np.array(s_(pos, mesh_type=mesh), dtype=float, copy=True)
+            o2 = gs.transform.apply_function(s_, lambda x: x, store="same", process=True, keep_mean=keep)
+            return o1, np.asarray(o2, dtype=float)
+
+        for keep in (True, False):
+            (o1, o2), _ = call(run_tf, keep, _tags=tags, _what="transform.apply_function(identity, process=True)")
+            rec.label("identity_transform_processed")
+            fin = np.isfinite(o1) & np.isfinite(o2)
+            scale_t = 1.0 + float(np.max(np.abs(o1[fin]), initial=0.0)) + float(np.max(np.abs(raw), initial=0.0))
+            bad = (np.isfinite(o1) != np.isfinite(o2)) | (fin & (np.abs(np.where(fin, o2 - o1, 0.0)) > 1e-7 * scale_t))
+            require(not bool(np.any(bad)),
+                    f"{kind}: identity applied with process=True, keep_mean={keep} changes the field by up to {float(np.max(np.abs(np.where(fin, o2 - o1, 0.0)))):.3g} "
+                    f"(removing and re-applying trend, normalizer{'' if keep else ' and mean'})",
+                    dict(tags, kind="processed_identity_transform", keep_mean=keep))
+
     # kriging honours the conditions through normalizer, mean and trend
     if kind in ("krige", "condsrf"):
         k, cond_val, tr_c, ccoords = call(_mk_krige, case, _tags=tags)[0]
